@@ -50,6 +50,7 @@ type Case struct {
 	CancelStep int             `json:"cancelStep"`
 	Variant    int             `json:"variant"`
 	Sched      []string        `json:"sched"`
+	Cut        int             `json:"cut"`
 	Raw        json.RawMessage `json:"-"`
 }
 
@@ -476,6 +477,100 @@ func runJitter(c Case) M {
 	return M{"case": c.Raw, "trace": []M{}, "run": run, "sched": []string{}, "diverged": ""}
 }
 
+// ---------------------------------------------------------------------------------------------
+// plain mode (no scheduler, no hooks): kinds "cut" (scan the file cut at a byte offset) and
+// "resume" (scan, then re-open a scanner at every distinct reported offset).
+func scanAll(fi pbfmini.File, data []byte, procs int) ([]M, string) {
+	s := osmpbf.New(context.Background(), bytes.NewReader(data), procs)
+	defer s.Close()
+	H := []M{}
+	for {
+		H = append(H, M{"op": "call"})
+		ok := s.Scan()
+		cur, prev := fi.AbsOff(s.FullyScannedBytes()), fi.AbsOff(s.PreviousFullyScannedBytes())
+		if !ok {
+			H = append(H, M{"op": "ret", "ok": false, "blk": 0, "idx": 0, "cur": cur, "prev": prev})
+			break
+		}
+		b, i := 0, 0
+		if n, isNode := s.Object().(*osm.Node); isNode {
+			b, i = fi.Pos(int64(n.ID))
+		}
+		H = append(H, M{"op": "ret", "ok": true, "blk": b, "idx": i, "cur": cur, "prev": prev, "curbytes": s.FullyScannedBytes()})
+	}
+	cls := errClass(s.Err())
+	H = append(H, M{"op": "err", "class": cls})
+	return H, cls
+}
+
+func runPlain(c Case) M {
+	fi := pbfmini.Build(c.Cfg.Cfg, c.Variant)
+	type res struct{ m M }
+	done := make(chan M, 1)
+	go func() {
+		switch c.Kind {
+		case "cut":
+			cut := int64(c.Cut)
+			if cut > int64(len(fi.Data)) {
+				cut = int64(len(fi.Data))
+			}
+			cc := fi.CutCfg(c.Cfg.Cfg, cut)
+			H, _ := scanAll(fi, fi.Data[:cut], c.Cfg.N)
+			done <- M{"cfg": M{"n": c.Cfg.N, "blocks": nonNil(cc.Blocks), "endkind": cc.Endkind, "hdr": cc.Hdr}, "H": H, "reads": 0, "rem": 0, "outcome": "ok", "resume": []M{}}
+		case "resume":
+			H, _ := scanAll(fi, fi.Data, c.Cfg.N)
+			seen := map[int64]bool{}
+			resume := []M{}
+			for _, h := range H {
+				off, has := h["curbytes"].(int64)
+				if !has || seen[off] {
+					continue
+				}
+				seen[off] = true
+				// a new scanner on the same data at the reported offset: its first block is a data block
+				fi2 := fi
+				H2 := []M{}
+				s2 := osmpbf.New(context.Background(), bytes.NewReader(fi.Data[off:]), c.Cfg.N)
+				objs := [][]int{}
+				for s2.Scan() {
+					b, i := 0, 0
+					if n, isNode := s2.Object().(*osm.Node); isNode {
+						b, i = fi2.Pos(int64(n.ID))
+					}
+					objs = append(objs, []int{b, i})
+				}
+				_ = H2
+				resume = append(resume, M{"from": fi.Blk(off), "objs": objs, "err": errClass(s2.Err())})
+				s2.Close()
+			}
+			for _, h := range H {
+				delete(h, "curbytes")
+			}
+			done <- M{"cfg": M{"n": c.Cfg.N, "blocks": c.Cfg.Blocks, "endkind": c.Cfg.Endkind, "hdr": c.Cfg.Hdr}, "H": H, "reads": 0, "rem": 0, "outcome": "ok", "resume": resume}
+		}
+	}()
+	select {
+	case run := <-done:
+		if hs, ok := run["H"].([]M); ok {
+			for _, h := range hs {
+				delete(h, "curbytes")
+			}
+		}
+		return M{"case": c.Raw, "trace": []M{}, "run": run, "sched": []string{}, "diverged": ""}
+	case <-time.After(30 * time.Second):
+		return M{"case": c.Raw, "trace": []M{}, "sched": []string{}, "diverged": "",
+			"run": M{"cfg": M{"n": c.Cfg.N, "blocks": c.Cfg.Blocks, "endkind": c.Cfg.Endkind, "hdr": c.Cfg.Hdr}, "H": []M{}, "reads": 0, "rem": 0,
+				"outcome": "hang: scan did not end within 30s", "resume": []M{}}}
+	}
+}
+
+func nonNil(b []pbfmini.Block) []pbfmini.Block {
+	if b == nil {
+		return []pbfmini.Block{}
+	}
+	return b
+}
+
 func main() {
 	in := bufio.NewScanner(os.Stdin)
 	in.Buffer(make([]byte, 1<<20), 1<<26)
@@ -490,7 +585,9 @@ func main() {
 		vio.Must(json.Unmarshal(line, &c), "case")
 		c.Raw = line
 		var rec M
-		if c.Kind == "jitter" {
+		if c.Kind == "cut" || c.Kind == "resume" {
+			rec = runPlain(c)
+		} else if c.Kind == "jitter" {
 			if osmpbf.VerifHook == nil {
 				osmpbf.VerifHook = jitterHook() // a process runs either jitter cases or scheduler cases
 			}
